@@ -33,7 +33,7 @@ template<class Cfg, int D> void run_d(vp::Input const& in, vp::Ctx& ctx) {
 		vp::obs().reset();
 		vp::Ctx dry;
 		vp::Machine<Cfg, D> M(dry, ids);
-		M.enabled = vp::kAllOps & ~(vp::bit(vp::O_DECAY));
+		M.enabled = (vp::kAllOps | (Cfg::stateful ? vp::kAllocOps : 0ULL)) & ~(vp::bit(vp::O_DECAY));  // allocator-extended copy/move construction with stateful allocators
 		M.run(in);
 		E = vp::obs().events;
 		ctx.desc << tname<typename Cfg::T>() << " D=" << D << (Cfg::flags == 0 ? " unequal-allocators ids=" : " equal-allocators") ; if(Cfg::flags == 0) { ctx.desc << (ids & 15U); } ctx.desc << dry.desc.s << " || events=" << E;
@@ -53,7 +53,7 @@ template<class Cfg, int D> void run_d(vp::Input const& in, vp::Ctx& ctx) {
 		vp::Ctx sub;
 		try {
 			vp::Machine<Cfg, D> M(sub, ids);
-			M.enabled = vp::kAllOps & ~(vp::bit(vp::O_DECAY));
+			M.enabled = (vp::kAllOps | (Cfg::stateful ? vp::kAllocOps : 0ULL)) & ~(vp::bit(vp::O_DECAY));  // allocator-extended copy/move construction with stateful allocators
 			M.run(in);
 			if(M.faulted) { ++fired; ctx.nontrivial = true; }
 		} catch(vp::Fail const& f) {
